@@ -74,7 +74,7 @@ impl Prop for C08 {
 
     fn strategy(_leg: &str, tier: Tier) -> BoxedStrategy<Case> {
         (
-            gen::weighted_isize(tier.pick(12, 40)),
+            gen::weighted_isize_big_rate(tier.pick(12, 40), 150),
             any::<u8>(),
             proptest::collection::vec(any::<u16>(), 2..=4),
         )
